@@ -67,7 +67,7 @@ PROPS = {
             "Xet.Merkle.C06_hex_injective",
             "Xet.Merkle.C06_hashedwrite_streaming",
         ],
-        "suites": ["hashes"],
+        "suites": ["hashes", "xorb_validate"],
         "level_text": "Theorems for every chunk list and every choice of hash primitives: producer xorb hash = validators' route, merge "
                       "terminates with one root and every level shrinks, sensitivity in collision-extraction form (two different non-empty chunk lists "
                       "with equal xorb/file/range hash yield an explicit collision of a hash primitive, a leaf hash in the range of the interior "
